@@ -24,6 +24,7 @@ func init() {
 			c.run("C14-R7", "GUARD-DOM: polarity of the relay's hand-over decisions (flush routes, confirmed flag, recorded client facts)", c14R7)
 			c.run("C14-R8", "MUST-PASS: the relay's handshake steps return their errors and a failed step ends the handshake unconfirmed", c14R8)
 			c.run("C14-S2", "shared with C13-R6: the relay's workers run concurrently (the handshake can finish and the relay return to standby)", c13Launch)
+			c.run("C14-R9", "DATAFLOW: at every return of the relay handshake the flush flag is false whenever an error is set (helpers summarised)", c14Cells)
 			c.run("C14-R6", "PAIR+GUARD-DOM (shared with C13-R1/R2): nothing can be parked after the flush, so no stale chunk is left for the next transfer's handshake", func(c *Ctx) { c13R1(c); c13R2(c) })
 		})
 }
@@ -323,6 +324,30 @@ func c14R3(c *Ctx) {
 				}
 			}
 		})
+		{
+			// universal form: with binary asked for and not offered, the config is never sent with binary still on —
+			// from the action's arrival no sendConfig is reachable under {Binary, !SupportBinary} without the downgrade
+			ra := callsIn(f, idIs(tT+"recvAction"))
+			if len(ra) > 0 {
+				isBinArg := func(v ssa.Value) bool { return isFieldLoad("Binary")(v) }
+				isDown := func(in ssa.Instruction) bool {
+					st, ok := in.(*ssa.Store)
+					if !ok {
+						return false
+					}
+					fa, ok := st.Addr.(*ssa.FieldAddr)
+					if !ok || fieldName(fa) != "Binary" {
+						return false
+					}
+					b, isC := constBool(st.Val)
+					return isC && !b
+				}
+				rai := ra[0].(ssa.Instruction)
+				hitB, pathB := reachFromE(rai.Block(), instrIndex(rai)+1, func(in ssa.Instruction) bool { return in == sc[0].(ssa.Instruction) }, c.orWrapper("binary=false", isDown),
+					contradicts([]assumption{{pred: isBinArg, val: true}, {pred: isFieldLoad("SupportBinary"), val: false}}))
+				c.check(hitB == nil, name+"/binary-always-downgraded", c.ipos(sc[0]), "when the action does not offer binary mode the config never goes out with binary mode on", "with binary asked for and not offered by the (narrowed) action the config can still be sent with binary on: binary frames travel over a path that cannot carry them", c.pathStr(pathB)...)
+			}
+		}
 		c.check(okDown, name+"/binary-downgrade", c.ipos(sc[0]), "binary mode is dropped when the (narrowed) action does not offer it", "server keeps binary mode although the action does not offer it")
 		// the side of each test: the config goes out only when the client confirmed and supports what was asked for;
 		// a declined transfer ends with "Cancelled" and nothing else
@@ -523,7 +548,7 @@ func c14R4(c *Ctx) {
 					return true, op == token.EQL
 				}},
 			}
-			hit, path := reachFromE(read.Block(), instrIndex(read)+1, func(in ssa.Instruction) bool { return in == ssa.Instruction(read) || isReturn(in) }, isReset, contradicts(as))
+			hit, path := reachFromE(read.Block(), instrIndex(read)+1, func(in ssa.Instruction) bool { return in == ssa.Instruction(read) || isReturn(in) }, c.orWrapper("relay-reset", isReset), contradicts(as))
 			c.check(hit == nil, ps.fn+"/transferring+marker=>reset."+m, c.ipos(read), "a chunk with this end marker, read while transferring, always resets the relay before the next read", "a chunk carrying "+m+" read while the relay is 'transferring' can pass without the reset: the relay stays in transfer mode after the transfer ended", c.pathStr(path)...)
 		}
 	}
@@ -614,7 +639,7 @@ func c14R5(c *Ctx) {
 		}
 		// pointer fields: cleared whenever loaded non-nil — from the CAS-won edge no exit is reachable without the clear,
 		// except over the edge on which a load of this very field was found nil (nothing to clear)
-		hit, path := reachFromE(won, 0, isReturn, isClear, func(from, to *ssa.BasicBlock) bool {
+		hit, path := reachFromE(won, 0, isReturn, c.orWrapper("relay-clear:"+fld, isClear), func(from, to *ssa.BasicBlock) bool {
 			for _, fc := range edgeFactsTo(from, to) {
 				op, x, y, ok := cmpFact(fc)
 				if !ok || op != token.EQL || !isNilConst(y) {
@@ -697,6 +722,36 @@ func c14R7(c *Ctx) {
 				}
 			}
 		}
+	}
+	// universal forms: whatever the outcome of the handshake, both parking buffers are drained to the empty pop and the
+	// status leaves 'handshaking' before the flush returns (otherwise parked bytes are lost, or parking goes on for good)
+	for _, bufName := range []string{"stdinBuffer", "stdoutBuffer"} {
+		bufName := bufName
+		isEmptyPopEdge := func(in ssa.Instruction) bool {
+			// barrier: a pop of this buffer (the loop can only be left over its empty pop, checked above)
+			ci, ok := in.(ssa.CallInstruction)
+			if !ok || calleeID(ci.Common()) != "(*trzsz.trzszBuffer).popBuffer" {
+				return false
+			}
+			_, fld, _ := fieldOf(ci.Common().Args[0])
+			return fld == bufName
+		}
+		hitD, pathD := reachFrom(f.Blocks[0], 0, isReturn, c.orWrapper("pop:"+bufName, isEmptyPopEdge))
+		c.check(hitD == nil, "flush/"+bufName+"/always-drained", c.pos(f.Pos()), "every flush drains this parking buffer, confirmed or not", "a flush can return without draining "+bufName+": bytes parked during the handshake are lost (or delivered in the next handshake)", c.pathStr(pathD)...)
+	}
+	{
+		leaves := func(in ssa.Instruction) bool {
+			ci, ok := in.(ssa.CallInstruction)
+			if !ok {
+				return false
+			}
+			if calleeID(ci.Common()) == "(*trzsz.TrzszRelay).resetToStandby" {
+				return true
+			}
+			return isStatusCall(ci, "Store")
+		}
+		hitL, pathL := reachFrom(f.Blocks[0], 0, isReturn, c.orWrapper("leave-handshaking", leaves))
+		c.check(hitL == nil, "flush/always-leaves-handshaking", c.pos(f.Pos()), "every flush ends by moving the status out of 'handshaking'", "a flush can return with the status still 'handshaking': all later traffic is parked and never delivered", c.pathStr(pathL)...)
 	}
 	eachInstr(f, func(in ssa.Instruction) {
 		s, ok := in.(*ssa.Send)
